@@ -113,8 +113,22 @@ func (c *GConf) Text(device bool) string {
 		for _, r := range c.Routes {
 			b.WriteString(r + "\n")
 		}
+		// A hand-made crypto map (bound to the interface unknown to
+		// Netspoc) is listed in front of the managed one in half of the
+		// configurations that have both.
+		early := c.VPN != nil && len(c.VPN.Entries)%2 == 1
+		if early {
+			for _, e := range c.Extra {
+				if strings.HasPrefix(e, "crypto ") {
+					b.WriteString(e + "\n")
+				}
+			}
+		}
 		b.WriteString(c.VPN.Text())
 		for _, e := range c.Extra {
+			if early && strings.HasPrefix(e, "crypto ") {
+				continue
+			}
 			b.WriteString(e + "\n")
 		}
 		return b.String()
